@@ -61,3 +61,22 @@ Lemma make_tuple_transfer_agrees : forall a, is_cat a -> make_tuple_transfer_m a
 Proof. intros a H; dty a; try discriminate H; reflexivity. Qed.
 Lemma forward_as_tuple_agrees : forall a, is_cat a -> forward_as_tuple_m a = forward_as_tuple_spec a.
 Proof. intros a H; dty a; try discriminate H; reflexivity. Qed.
+
+(** construction of bind_front / not_fn wrappers: any number of bound arguments *)
+Lemma init_elem_VK : forall a, is_cat a -> init_elem VK a = init_spec (mkty false RNone) a.
+Proof. intros a H; dty a; try discriminate H; reflexivity. Qed.
+Lemma bindfront_ctor_agrees : forall fc bound, is_cat fc -> Forall is_cat bound ->
+  bindfront_ctor_m fc bound = wrapper_ctor_spec fc bound.
+Proof.
+  intros fc bound Hf Hb. unfold bindfront_ctor_m, wrapper_ctor_spec.
+  rewrite (perfect_fwd_id fc Hf). cbn [obind]. rewrite (perfect_fwd_id fc Hf). cbn [obind].
+  rewrite (init_elem_VK fc Hf). destruct (init_spec (mkty false RNone) fc) as [bf|]; [|reflexivity]. cbn [obind].
+  assert (E : map_opt (fun a => do a1 <- perfect_fwd a; do a2 <- perfect_fwd a1; tuple_ctor_m VK a2) bound
+              = map_opt (init_spec (mkty false RNone)) bound).
+  { induction Hb as [|a l Ha Hl IH]; [reflexivity|]. cbn [map_opt].
+    rewrite (perfect_fwd_id a Ha). cbn [obind]. rewrite (perfect_fwd_id a Ha). cbn [obind].
+    unfold VK at 1. rewrite (tuple_ctor_agrees _ a Ha). rewrite IH. reflexivity. }
+  rewrite E. reflexivity.
+Qed.
+Lemma notfn_ctor_agrees : forall fc, is_cat fc -> notfn_ctor_m fc = init_spec (mkty false RNone) fc.
+Proof. intros fc H. unfold notfn_ctor_m. rewrite (perfect_fwd_id fc H). cbn [obind]. apply init_elem_VK. exact H. Qed.
